@@ -607,6 +607,7 @@ theorem Inv.step {s s' : State} {st : Step} (hi : Inv s) (h : step? s st = some 
   | accept t g a => exact hi.frame rfl rfl rfl rfl rfl (fun _ => rfl) hi.idleNext hi.stoppingNext hi.books
   | adminReplace g a => exact hi.frame rfl rfl rfl rfl rfl (fun _ => rfl) hi.idleNext hi.stoppingNext hi.books
   | adminClose g a => exact hi.frame rfl rfl rfl rfl rfl (fun _ => rfl) hi.idleNext hi.stoppingNext hi.books
+  | cancelCtx g => exact hi.frame rfl rfl rfl rfl rfl (fun _ => rfl) hi.idleNext hi.stoppingNext hi.books
   | complete t g => exact hi.frame rfl rfl rfl rfl rfl (fun _ => rfl) hi.idleNext hi.stoppingNext hi.books
   | cb k g =>
     cases k with
@@ -679,6 +680,7 @@ theorem KeepInv.step {a : Addr} {s s' : State} {st : Step} {rest : List Step} (h
   | accept t g b => exact ⟨⟨⟨c, hc, hac⟩, hn⟩, by simpa [keeps] using hk⟩
   | adminReplace g b => exact ⟨⟨⟨c, hc, hac⟩, hn⟩, by simpa [keeps] using hk⟩
   | adminClose g b => exact ⟨⟨⟨c, hc, hac⟩, hn⟩, by simpa [keeps] using hk⟩
+  | cancelCtx g => exact ⟨⟨⟨c, hc, hac⟩, hn⟩, by simpa [keeps] using hk⟩
   | complete t g => exact ⟨⟨⟨c, hc, hac⟩, hn⟩, by simpa [keeps] using hk⟩
   | cb k g => cases k <;> exact ⟨⟨⟨c, hc, hac⟩, hn⟩, by simpa [keeps] using hk⟩
 
@@ -706,6 +708,7 @@ theorem keeps_append_left (a : Addr) : ∀ (xs ys : List Step), keeps a (xs ++ y
     | close g b | complete g b | cb g b => simpa [keeps] using keeps_append_left a rest ys (by simpa [keeps] using h)
     | accept t g b => simpa [keeps] using keeps_append_left a rest ys (by simpa [keeps] using h)
     | adminReplace g b | adminClose g b => simpa [keeps] using keeps_append_left a rest ys (by simpa [keeps] using h)
+    | cancelCtx g => simpa [keeps] using keeps_append_left a rest ys (by simpa [keeps] using h)
 
 /-! ### one reload: the only configs alive are the old and the new one -/
 
@@ -754,6 +757,7 @@ theorem alive_step {s s' : State} {st : Step} {P : Gen → Prop} (hP : ∀ g, al
   | accept t g b => exact ⟨fun g hg => hP g hg, by simpa [oneReload] using ho⟩
   | adminReplace g b => exact ⟨fun g hg => hP g hg, by simpa [oneReload] using ho⟩
   | adminClose g b => exact ⟨fun g hg => hP g hg, by simpa [oneReload] using ho⟩
+  | cancelCtx g => exact ⟨fun g hg => hP g hg, by simpa [oneReload] using ho⟩
   | complete t g => exact ⟨fun g hg => hP g hg, by simpa [oneReload] using ho⟩
   | cb k g => cases k <;> exact ⟨fun g hg => hP g hg, by simpa [oneReload] using ho⟩
 
